@@ -23,6 +23,7 @@ package control // import "pault.ag/go/debian/control"
 import (
 	"bufio"
 	"bytes"
+	"encoding/base64"
 	"fmt"
 	"io"
 	"io/ioutil"
@@ -195,6 +196,39 @@ func (p *ParagraphReader) All() ([]Paragraph, error) {
 
 // }}}
 
+// checkArmorChecksum looks at the "=XXXX" line (if any) in front of the last
+// armor END line of text: it has to be the CRC-24 of the armored bytes.
+func checkArmorChecksum(text []byte, armored []byte) error {
+	end := bytes.LastIndex(text, []byte("-----END PGP "))
+	if end < 0 {
+		return nil
+	}
+	lines := bytes.Split(bytes.TrimRight(text[:end], "\r\n"), []byte("\n"))
+	line := bytes.TrimSpace(lines[len(lines)-1])
+	if len(line) == 0 || line[0] != '=' {
+		return nil /* the checksum is optional */
+	}
+	sum, err := base64.StdEncoding.DecodeString(string(line[1:]))
+	if err != nil || len(sum) != 3 {
+		return fmt.Errorf("Invalid armor checksum line")
+	}
+	crc := uint32(0xb704ce)
+	for _, b := range armored {
+		crc ^= uint32(b) << 16
+		for i := 0; i < 8; i++ {
+			crc <<= 1
+			if crc&0x1000000 != 0 {
+				crc ^= 0x1864cfb
+			}
+		}
+	}
+	crc &= 0xffffff
+	if uint32(sum[0])<<16|uint32(sum[1])<<8|uint32(sum[2]) != crc {
+		return fmt.Errorf("Armor checksum mismatch")
+	}
+	return nil
+}
+
 // Next {{{
 
 // Consume the io.Reader and return the next parsed Paragraph, modulo
@@ -327,7 +361,7 @@ func (p *ParagraphReader) decodeClearsig(keyring *openpgp.EntityList) error {
 		return err
 	}
 
-	block, _ := clearsign.Decode(signedData)
+	block, rest := clearsign.Decode(signedData)
 	/* We're only interested in the first block. This may change in the
 	 * future, in which case, we should likely set reader back to
 	 * the remainder, and return that out to put through another
@@ -351,6 +385,11 @@ func (p *ParagraphReader) decodeClearsig(keyring *openpgp.EntityList) error {
 	 * checked, and CheckDetachedSignature stops reading after the packet */
 	signature, err := ioutil.ReadAll(block.ArmoredSignature.Body)
 	if err != nil {
+		return err
+	}
+	if err := checkArmorChecksum(signedData[:len(signedData)-len(rest)], signature); err != nil {
+		/* the armor reader lets a checksum line it cannot decode to three
+		 * bytes ("=n5v=") pass as if there were none */
 		return err
 	}
 
